@@ -154,19 +154,68 @@ def check_stack(idx: Index, rep: Report) -> None:
         r.ok(f.fq, f"{f.loc} reserved / non-allocatable physical registers are not pushed ({n_app} appending paths)")
     else:
         r.fail(f.fq, Finding("C19.R2", f.fq, "push-guard", "push must return early for a physical register that is reserved or not allocatable: " + bad_push[0], f.loc))
-    cfg = CFG(f.node)
-    app = [c for c in calls_in(f.node) if unparse(c.func) == "available.append"]
-    rem = [n for n in walk_local(f.node) if isinstance(n, ast.If) and unparse(n.test) == "index in available"]
-    if app and rem:
+    # an index is on the stack at most once: every appending path either knows the index is absent or removed it first
+    dup = []
+    undecided = []
+    for pth in expand_predicates(enum_paths(f.node), {}):
+        if not pth.feasible():
+            continue
+        apps = [k for k, e_ in enumerate(pth.effects) if isinstance(e_, ast.Expr) and isinstance(e_.value, ast.Call) and call_attr(e_.value) in ("append", "add", "insert") and "available" in pth.res(e_.value.func.value, k)]  # type: ignore[attr-defined]
+        if not apps:
+            continue
+        k = apps[0]
+        cont = pth.res(pth.effects[k].value.func.value, k)  # type: ignore[union-attr]
+        el = pth.res(pth.effects[k].value.args[-1], k)  # type: ignore[union-attr]
+        removed = any(isinstance(e_, ast.Expr) and isinstance(e_.value, ast.Call) and call_attr(e_.value) in ("remove", "discard") and pth.res(e_.value.func.value, j) == cont and pth.res(e_.value.args[0], j) == el for j, e_ in enumerate(pth.effects[:k]))  # type: ignore[attr-defined]
+        member = next((p_ for t_, p_ in pth.nfacts() if t_ == f"{el} in {cont}"), None)
+        if member is False or removed:
+            continue
+        if member is True:
+            dup.append(f"a path appends `{el}` to {cont} although it is already there and was not removed")
+        else:
+            undecided.append(f"a path appends `{el}` to {cont} without a membership test this rule can read")
+    if dup:
+        r.fail(f.fq + ":nodup", Finding("C19.R2", f.fq, "duplicate-push", "a register can be on the available stack twice (it would be handed out to two values): " + dup[0], f.loc))
+    elif undecided:
+        r.fail(f.fq + ":nodup", Finding("C19.R2", f.fq, "duplicate-push-unrecognised", undecided[0], f.loc))
+    else:
         r.ok(f.fq + ":nodup", f"{f.loc} an index is on the stack at most once")
-    else:
-        r.fail(f.fq + ":nodup", Finding("C19.R2", f.fq, "duplicate-push", "a register can be on the available stack twice (it would be handed out to two values)", f.loc))
     g = idx.func(RS, "RegisterStack.pop")
-    tg = unparse(g.node)
-    if "assert reg.index.data not in reserved_registers" in tg and "raise OutOfRegisters" in tg:
-        r.ok(g.fq, f"{g.loc} pop refuses reserved registers and reports exhaustion")
+    problems = []
+    shape = []
+    n_ret = 0
+    for pth in expand_predicates(enum_paths(g.node), {}):
+        if not pth.feasible() or pth.end != "return" or pth.value is None:
+            continue
+        n_ret += 1
+        nf = pth.nfacts()
+        rv = pth.rvalue() or ""
+        k_end = len(pth.effects)
+        # where does the returned register come from on this path
+        src = pth.res(pth.value)
+        if "infinite_register(" in src:
+            if ("self.allow_infinite", True) not in nf:
+                problems.append(("pop-guard", "an infinite (virtual) register is handed out on a path that does not know allow_infinite to be set: exhaustion must raise OutOfRegisters"))
+        elif ".pop(" in src or "from_index(" in src:
+            if not any(p_ and re.fullmatch(r"self\.available_registers\[.+\]|len\(self\.available_registers\[.+\]\)( > 0| != 0| >= 1)?", t_) for t_, p_ in nf):
+                shape.append("a register is taken from the pool on a path where the pool is not known to be non-empty")
+        else:
+            shape.append(f"origin of the returned register `{src[:60]}` not recognised")
+        checks = [e_ for j, e_ in enumerate(pth.effects) if isinstance(e_, ast.Assert) and re.fullmatch(r".+ not in self\.reserved_registers\[.+\]", pth.res(e_.test, j))]
+        facts_ok = any(not p_ and re.fullmatch(r".+ in self\.reserved_registers\[.+\]", t_) for t_, p_ in nf)
+        if not checks and not facts_ok:
+            shape.append("a register is returned on a path without the check that it is not reserved")
+    raises = [n for n in walk_local(g.node) if isinstance(n, ast.Raise) and n.exc is not None and "OutOfRegisters" in unparse(n.exc)]
+    if n_ret == 0:
+        raise AnalysisError(f"{g.fq}: no returning path")
+    if not raises:
+        problems.append(("pop-guard", "pop never raises OutOfRegisters: exhaustion of the pool is not reported"))
+    if problems:
+        r.fail(g.fq, Finding("C19.R2", g.fq, problems[0][0], problems[0][1], g.loc))
+    elif shape:
+        r.fail(g.fq, Finding("C19.R2", g.fq, "pop-guard-unrecognised", shape[0], g.loc))
     else:
-        r.fail(g.fq, Finding("C19.R2", g.fq, "pop-guard", "pop must never hand out a reserved register and must raise OutOfRegisters when none is left", g.loc))
+        r.ok(g.fq, f"{g.loc} pop refuses reserved registers and reports exhaustion ({n_ret} returning paths)")
     for q in ("RegisterStack.reserve_register", "RegisterStack.unreserve_register"):
         h = idx.func(RS, q)
         bad = [c for c in calls_in(h.node) if unparse(c.func) in ("self.push", "self.include_register") or (isinstance(c.func, ast.Attribute) and "available" in unparse(c.func.value) and c.func.attr in ("append", "remove", "pop", "insert", "extend"))]
